@@ -313,6 +313,9 @@ var c18Filter = hx.Define("c18.filters", func(c *c18FilterCase, s *hx.Sub) *hx.V
 		}
 	}
 	src += " }}"
+	// what the filter returned is also measured and taken apart: two results that print alike may still differ
+	// (an array that kept a Drop for nil prints like one that dropped it)
+	ext := strings.Replace(strings.Replace(src, "{{ ", "{% assign q = ", 1), " }}", " %}{{ q | size }}|{{ q | first }}|{{ q | last }}|{{ q | join: ',' }}", 1)
 	if c.Wrap == "elemdrop" {
 		// Drops nested in an array matter where the filter takes an array; an array passed where a
 		// string or number is expected is printed in Go syntax either way (outside the statement)
@@ -359,6 +362,9 @@ var c18Filter = hx.Define("c18.filters", func(c *c18FilterCase, s *hx.Sub) *hx.V
 		return hx.V("c18:filter:"+c.Filter, "%s renders %v; unwrapped it renders %v", desc, o1, o0)
 	}
 	if o0.OK() {
+		if e0, e1 := hx.Render(ext, b0), hx.Render(ext, b1); e0.Panic == nil && e1.Panic == nil && !e0.Same(e1) {
+			return hx.V("c18:filter:"+c.Filter, "%s: the result, measured and taken apart (%s), gives %v; unwrapped it gives %v", desc, ext, e1, e0)
+		}
 		s.NT()
 	} else {
 		s.Class("both-fail")
@@ -404,6 +410,14 @@ var c18Eq = hx.Define("c18.equality", func(c *c18EqCase, s *hx.Sub) *hx.Violatio
 	return nil
 })
 
+func noPtr(s *hx.Spec) *hx.Spec {
+	s.Ptr = false
+	for _, e := range s.E {
+		noPtr(e)
+	}
+	return s
+}
+
 func c18GenValue(t *rapid.T, depth int) *hx.Spec {
 	k := rapid.IntRange(0, 7).Draw(t, "vk")
 	if depth == 0 || k < 4 {
@@ -417,6 +431,20 @@ func c18GenValue(t *rapid.T, depth int) *hx.Spec {
 		default:
 			return rapid.SampledFrom([]*hx.Spec{hx.SNil(), hx.SBool(true), hx.SBool(false)}).Draw(t, "vc").Clone()
 		}
+	}
+	if k == 7 {
+		// a string-keyed map (of equal scalars half of the time, so that it can be a typed map)
+		m := hx.SMap()
+		same := rapid.Bool().Draw(t, "vsame")
+		for i, n := 0, rapid.IntRange(0, 3).Draw(t, "vmn"); i < n; i++ {
+			m.Keys = append(m.Keys, []string{"a", "b", "c"}[i])
+			if same {
+				m.E = append(m.E, hx.SInt(int64(rapid.IntRange(0, 2).Draw(t, "vmi"))))
+			} else {
+				m.E = append(m.E, c18GenValue(t, depth-1))
+			}
+		}
+		return m
 	}
 	a := hx.SArr()
 	for i, n := 0, rapid.IntRange(0, 3).Draw(t, "vn"); i < n; i++ {
@@ -442,14 +470,16 @@ func TestC18(t *testing.T) {
 		}
 	})
 
-	eq := c18Eq.On(col, "rapid: a logical value (scalar or array nested to depth 2) realised twice with independently drawn representations at every node (numeric widths, typed slices, fixed arrays, Drops at any depth) and a second value z; x == y, x != y, x == z, case x / when z / when y, array-of-arrays contains y / z, uniq over [x, y, x]; metamorphic oracle: same result as with canonical representations. Non-trivial: renders; distinct by the three representation fingerprints", false)
+	eq := c18Eq.On(col, "rapid: a logical value (scalar, array or string-keyed map, nested to depth 2) realised twice with independently drawn representations at every node (numeric widths, typed slices, fixed arrays, typed maps, Drops at any depth) and a second value z; x == y, x != y, x == z, case x / when z / when y, array-of-arrays contains y / z, uniq over [x, y, x]; metamorphic oracle: same result as with canonical representations. Non-trivial: renders; distinct by the three representation fingerprints", false)
 	col.Rapid(eq.Sub, env.PerShard(env.Pick(150000, 1500000)), func(t *rapid.T) {
 		v := c18GenValue(t, 2)
 		if v.K != "arr" && rapid.Bool().Draw(t, "wrap") {
 			v = hx.SArr(v, c18GenValue(t, 1))
 		}
 		z := c18GenValue(t, 2)
-		c := &c18EqCase{V: v, X: rerep(t, v, "elem", false), Y: rerep(t, v, "elem", false), Z: z, ZR: rerep(t, z, "elem", false)}
+		// (no pointers here: the statement speaks of pointers reached by variable or property lookup, and comparing
+		// whole containers reaches their entries without one)
+		c := &c18EqCase{V: v, X: noPtr(rerep(t, v, "elem", false)), Y: noPtr(rerep(t, v, "elem", false)), Z: z, ZR: noPtr(rerep(t, z, "elem", false))}
 		if res := eq.Run(c); res != nil {
 			t.Fatalf("%s", res.Message)
 		}
